@@ -48,7 +48,19 @@ func Str() *rapid.Generator[string] {
 		rapid.Just(""),
 		rapid.StringMatching(`[a-zA-Z0-9_./=,:-]{1,12}`),
 		rapid.StringN(0, 8, 24),
+		rapid.SampledFrom(normalisable),
 	)
+}
+
+// normalisable are spellings that a well-meant "canonicalisation" would rewrite: units,
+// numbers, case, white space, unclean paths, things that look like the code's own markers.
+var normalisable = []string{" x", "x ", "\tx", "X", "Bind", "RO", "a//b", "a/./b", "a/../b", "/a/", "./a", "2Mi", "2048kB", "1Gi",
+	"1536Ki", "2MiB", "2mb", "1M", "1e3", "0x10", "+1", "-1", "001", "1.0", "true", "True", "nil", "null", "-", "--x", "=",
+	"a=b=c", "a,b", "a b", "\u00a0", "%s", "$HOME", "~", "*"}
+
+// PageSize draws hugepage page sizes in the canonical and in other unit spellings.
+func PageSize() *rapid.Generator[string] {
+	return rapid.SampledFrom([]string{"2MB", "1GB", "64KB", "", "2Mi", "2048kB", "1Gi", "1536Ki", "2MiB", "2mb", "1M", "4M", "0Ki", " 2MB", "2MB "})
 }
 
 // Word draws a non-empty identifier-like string.
@@ -122,7 +134,7 @@ func OCIResources() *rapid.Generator[*rspec.LinuxResources] {
 		n := rapid.IntRange(0, 3).Draw(t, "nhuge")
 		for i := 0; i < n; i++ {
 			r.HugepageLimits = append(r.HugepageLimits, rspec.LinuxHugepageLimit{
-				Pagesize: rapid.SampledFrom([]string{"2MB", "1GB", "64KB", ""}).Draw(t, "ps"),
+				Pagesize: PageSize().Draw(t, "ps"),
 				Limit:    U64().Draw(t, "hl"),
 			})
 		}
@@ -275,7 +287,7 @@ func NRIResources() *rapid.Generator[*api.LinuxResources] {
 		n := rapid.IntRange(0, 3).Draw(t, "nhuge")
 		for i := 0; i < n; i++ {
 			r.HugepageLimits = append(r.HugepageLimits, &api.HugepageLimit{
-				PageSize: rapid.SampledFrom([]string{"2MB", "1GB", "64KB", ""}).Draw(t, "ps"),
+				PageSize: PageSize().Draw(t, "ps"),
 				Limit:    U64().Draw(t, "hl"),
 			})
 		}
